@@ -1319,10 +1319,19 @@ def solve_ivp(fun, t_span, y0, method='RK45', t_eval=None, dense_output=False,
         y_res = []
         for t in t_eval:
             ode_system.integrate(t=t, **integration_options)
+            if ode_system.integration_status == "Integration terminated upon finding a triggered event." and ode_system[-1].t != t:
+                # a terminal event ends the run: this and the remaining output times are never reached
+                break
             t_res.append(ode_system[-1].t)
             y_res.append(ode_system[-1].y)
-        t_res = D.ar_numpy.stack(t_res, axis=0)
-        y_res = D.ar_numpy.stack(y_res, axis=-1)
+            if ode_system.integration_status == "Integration terminated upon finding a triggered event.":
+                break
+        if len(t_res) > 0:
+            t_res = D.ar_numpy.stack(t_res, axis=0)
+            y_res = D.ar_numpy.stack(y_res, axis=-1)
+        else:
+            t_res = ode_system.t[:0]
+            y_res = D.ar_numpy.transpose(ode_system.y[:0], axes=[*range(1, len(ode_system.y.shape)), 0])
     
     return OdeResult(t=t_res, y=y_res, sol=ode_system.sol, t_events=ode_system.events, 
                      y_events=ode_system.events, nfev=ode_system.nfev, njev=ode_system.njev,
